@@ -25,9 +25,10 @@ VARIABLES ci,     \* index of the current case
           n,      \* declared variables so far
           mods,   \* models of everything added so far, over 1..n
           asm,    \* current assumptions (sequence of literals)
+          pn,     \* number of variables the parsed problem reports (from the "dump" event)
           bad,    \* rejected steps
           nev     \* events consumed (for the acceptance count)
-vars == <<ci, ei, n, mods, asm, bad, nev>>
+vars == <<ci, ei, n, mods, asm, pn, bad, nev>>
 
 Case == Cases[ci]
 Ev == Case.ev[ei]
@@ -70,17 +71,28 @@ SolveWhy(e) ==
 AssumeWhy(e) ==
   IF e.status = "UNSAT" /\ {m \in mods : SatLits(m, e.ls)} # {} THEN "assume-early-unsat" ELSE ""
 
-CountWhy(e) == IF e.k # Cardinality(mods) THEN "count" ELSE ""
+(* Counting and enumeration are over the declared variables.  A front end that declares the  *)
+(* variable count (strict) is held to it.  The constraint front ends declare nothing: there  *)
+(* the parsed problem may leave out the highest variables if and only if they are free in     *)
+(* the constraints as written (zero coefficient, trivially true constraint), i.e. the model   *)
+(* set is a cylinder over them; counting is then over the variables the problem reports.      *)
+DN == IF Case.strict THEN n ELSE Min2(pn, n)
+EM == Project(mods, DN)
+Cylinder == Extend(EM, DN, n) = mods
+
+CountWhy(e) == IF ~Cylinder THEN "declared-variable-lost"
+               ELSE IF e.k # Cardinality(EM) THEN "count" ELSE ""
 
 EnumWhy(e) ==
   LET ms == e.models
       S == {ToFn(ms[i]) : i \in 1..Len(ms)}
-  IN IF e.ret # Cardinality(mods) THEN "enum-return"
+  IN IF ~Cylinder THEN "declared-variable-lost"
+     ELSE IF e.ret # Cardinality(EM) THEN "enum-return"
      ELSE IF e.chan /\ ~e.closed THEN "enum-not-closed"
      ELSE IF e.chan /\ Cardinality(S) # Len(ms) THEN "enum-duplicate"
-     ELSE IF e.chan /\ \E i \in 1..Len(ms) : Len(ms[i]) # n THEN "enum-model-length"
-     ELSE IF e.chan /\ ~(S \subseteq mods) THEN "enum-non-model"
-     ELSE IF e.chan /\ S # mods THEN "enum-missing"
+     ELSE IF e.chan /\ \E i \in 1..Len(ms) : Len(ms[i]) # DN THEN "enum-model-length"
+     ELSE IF e.chan /\ ~(S \subseteq EM) THEN "enum-non-model"
+     ELSE IF e.chan /\ S # EM THEN "enum-missing"
      ELSE ""
 
 CostOf(m) == IF Case.hasObj THEN Cost(m, Obj) ELSE 0
@@ -127,13 +139,37 @@ AmoWhy(e) ==
 (* diagnostic only: the parsed problem should have the models of the input (same n) *)
 DumpWhy(e) == IF e.d.n = n /\ DumpModels(e.d) # mods THEN "diag:parse-dump" ELSE ""
 
-Why == CASE Ev.op = "solve"    -> SolveWhy(Ev)
+(* ---- white-box events attached to a call (hooks in solver/, build tag verif) ------------ *)
+(* Folded over the event list with the model set of "problem + everything appended so far"   *)
+(* (AppendClause calls made by the optimisation loop and blocking clauses of enumeration     *)
+(* strengthen it).  Every learned constraint must be a consequence of that set (C14, C06);   *)
+(* deriving the empty constraint is allowed only if no model satisfies the assumptions.      *)
+WbC(e) == [lits |-> e.lits, w |-> e.w, rel |-> ">=", rhs |-> e.d]
+RECURSIVE WbFold(_, _, _, _)
+WbFold(wb, i, M, k) ==
+  IF i > Len(wb) THEN ""
+  ELSE LET e == wb[i] IN
+       IF e.k \in {"append", "block"}
+       THEN IF MaxVar(e.lits) > k THEN ""   \* variable set grows: handled by the black-box layer only
+            ELSE WbFold(wb, i + 1, {m \in M : SatC(m, WbC(e))}, k)
+       ELSE IF e.k \in {"learn", "learn-pb"}
+       THEN IF \A m \in M : SatC(m, WbC(e)) THEN WbFold(wb, i + 1, M, k)
+            ELSE "learned-not-entailed"
+       ELSE IF e.k = "learn-empty"
+       THEN IF {m \in M : SatLits(m, asm)} = {} THEN WbFold(wb, i + 1, M, k) ELSE "derived-false-on-satisfiable"
+       ELSE WbFold(wb, i + 1, M, k)
+WbWhy(e) == LET w == WbFold(e.wb, 1, mods, n) IN
+            IF w = "" THEN "" ELSE IF Case.wbStrict THEN w ELSE "diag:" \o w
+
+First(a, b2) == IF a # "" THEN a ELSE b2
+
+Why == CASE Ev.op = "solve"    -> First(SolveWhy(Ev), WbWhy(Ev))
          [] Ev.op = "append"   -> ""
          [] Ev.op = "assume"   -> AssumeWhy(Ev)
-         [] Ev.op = "count"    -> CountWhy(Ev)
-         [] Ev.op = "enum"     -> EnumWhy(Ev)
-         [] Ev.op = "optimal"  -> OptimalWhy(Ev)
-         [] Ev.op = "minimize" -> MinimizeWhy(Ev)
+         [] Ev.op = "count"    -> First(CountWhy(Ev), WbWhy(Ev))
+         [] Ev.op = "enum"     -> First(EnumWhy(Ev), WbWhy(Ev))
+         [] Ev.op = "optimal"  -> First(OptimalWhy(Ev), WbWhy(Ev))
+         [] Ev.op = "minimize" -> First(MinimizeWhy(Ev), WbWhy(Ev))
          [] Ev.op = "amo"      -> AmoWhy(Ev)
          [] Ev.op = "dump"     -> DumpWhy(Ev)
          [] Ev.op = "crash"    -> "crash"
@@ -144,25 +180,27 @@ Why == CASE Ev.op = "solve"    -> SolveWhy(Ev)
 NewN == IF Ev.op = "append" THEN Max2(n, MaxVar(Ev.c.lits)) ELSE n
 NewMods == IF Ev.op = "append" THEN {m \in Extend(mods, n, NewN) : SatC(m, AsWritten(Ev.c))} ELSE mods
 NewAsm == IF Ev.op = "assume" THEN Ev.ls ELSE asm
+NewPn == IF Ev.op = "dump" THEN Ev.d.n
+         ELSE IF Ev.op = "append" THEN Max2(pn, MaxVar(Ev.c.lits)) ELSE pn
 
 Load(k) == /\ n' = Cases[k].n
            /\ mods' = Models(Cases[k].n, AsWrittenAll(Cases[k].cons))
-           /\ asm' = <<>>
+           /\ asm' = <<>> /\ pn' = Cases[k].n
 
 Init == /\ ci = 1 /\ ei = 1 /\ bad = <<>> /\ nev = 0
         /\ IF Len(Cases) >= 1
-           THEN /\ n = Cases[1].n /\ mods = Models(Cases[1].n, AsWrittenAll(Cases[1].cons)) /\ asm = <<>>
-           ELSE /\ n = 0 /\ mods = {} /\ asm = <<>>
+           THEN /\ n = Cases[1].n /\ mods = Models(Cases[1].n, AsWrittenAll(Cases[1].cons)) /\ asm = <<>> /\ pn = Cases[1].n
+           ELSE /\ n = 0 /\ mods = {} /\ asm = <<>> /\ pn = 0
 
 Step == /\ ci <= Len(Cases) /\ ei <= Len(Case.ev)
         /\ LET why == Why IN
            bad' = IF why = "" THEN bad ELSE Append(bad, <<Case.id, ei, why>>)
-        /\ n' = NewN /\ mods' = NewMods /\ asm' = NewAsm
+        /\ n' = NewN /\ mods' = NewMods /\ asm' = NewAsm /\ pn' = NewPn
         /\ ei' = ei + 1 /\ nev' = nev + 1 /\ UNCHANGED ci
 
 NextCase == /\ ci <= Len(Cases) /\ ei > Len(Case.ev)
             /\ ci' = ci + 1 /\ ei' = 1 /\ UNCHANGED <<bad, nev>>
-            /\ IF ci + 1 <= Len(Cases) THEN Load(ci + 1) ELSE UNCHANGED <<n, mods, asm>>
+            /\ IF ci + 1 <= Len(Cases) THEN Load(ci + 1) ELSE UNCHANGED <<n, mods, asm, pn>>
 
 Next == Step \/ NextCase
 Spec == Init /\ [][Next]_vars
